@@ -5,6 +5,7 @@ package main
 import (
 	"fmt"
 	"go/types"
+	"regexp"
 	"strings"
 	"sync"
 )
@@ -142,11 +143,26 @@ type leaf struct {
 var leafCache = map[string][]leaf{}
 var leafMu sync.Mutex
 
+var reByte = regexp.MustCompile(`\bbyte\b`)
+var reRune = regexp.MustCompile(`\brune\b`)
+var reAny = regexp.MustCompile(`\bany\b`)
+
+// typeKey: canonical type string (byte/uint8, rune/int32, any/interface{} are identical types)
 func typeKey(t types.Type) string {
 	if t == nil {
 		return "<nil>"
 	}
-	return types.TypeString(t, nil)
+	s := types.TypeString(t, nil)
+	if strings.Contains(s, "byte") {
+		s = reByte.ReplaceAllString(s, "uint8")
+	}
+	if strings.Contains(s, "rune") {
+		s = reRune.ReplaceAllString(s, "int32")
+	}
+	if strings.Contains(s, "any") {
+		s = reAny.ReplaceAllString(s, "interface{}")
+	}
+	return s
 }
 
 // leavesOf lists the leaves of a value of type t in a fixed order.
